@@ -245,7 +245,14 @@ fn c06() {
     add(json!({"pre": ["f1"], "late_guard": true, "threads": [["owner"], ["g2"]], "pb": pb}));
     add(json!({"pre": ["f1"], "late_guard": true, "threads": [["owner"], ["g2"], ["g1"]], "pb": pb}));
     add(json!({"pre": ["g1"], "threads": [["owner"], ["f1"]], "pb": pb}));
-    finish(rep, jobs, "Owner / cloned handles / flush guards / force-flush guards of one real AppendAndCloseOnDrop distributed over 2-4 threads (every listed placement, with and without a sequential prefix), all schedules within the preemption bound: the sink records the set of drops that had started at the instant of append; exactly one append, never before owner and handles are gone and (all guards gone or a force guard gone), carrying the owner's last mutation.");
+    // objects main keeps alive until the threads are joined: "at the moment" (the entry must be
+    // appended although a flush guard is still outstanding), and drops that must change nothing
+    add(json!({"hold": ["g1"], "threads": [["owner"], ["f1"]], "pb": pb}));
+    add(json!({"hold": ["g1"], "threads": [["h1"], ["h2"], ["f1"]], "pb": pb}));
+    add(json!({"hold": ["g1", "f2"], "threads": [["owner"], ["f1"]], "pb": pb}));
+    add(json!({"hold": ["f1"], "threads": [["owner"], ["g1"]], "pb": pb}));
+    add(json!({"hold": ["g1"], "pre": ["f2"], "threads": [["owner"], ["f1"]], "pb": pb}));
+    finish(rep, jobs, "Owner / cloned handles / flush guards / force-flush guards of one real AppendAndCloseOnDrop distributed over 2-4 threads (every listed placement, with and without a sequential prefix), all schedules within the preemption bound: the sink records the set of drops that had started at the instant of append; exactly one append, never before owner and handles are gone and (all guards gone or a force guard gone), appended by the time the drops that make it due have returned (also with a flush guard still held by main), carrying the owner's last mutation.");
 }
 
 fn c13() {
